@@ -46,6 +46,16 @@ type Case struct {
 	Feat    []string       `json:"feat"`
 	Known   []KnownOutcome `json:"known"`
 	X       jsonRaw        `json:"x"` // kind-specific payload
+	// Same[i] >= 0: input i is the very same tensor object (and graph name) as input Same[i]
+	Same []int `json:"same"`
+}
+
+// sameAs returns the index of the input that input i aliases, or -1.
+func (c *Case) sameAs(i int) int {
+	if i < len(c.Same) && c.Same[i] >= 0 && c.Same[i] < i {
+		return c.Same[i]
+	}
+	return -1
 }
 
 // Observation is what the real code did.
